@@ -7,6 +7,9 @@
 package c19
 
 import (
+	"math/rand"
+
+	"mellium.im/xmlstream"
 	"sort"
 	"sync"
 
@@ -29,6 +32,12 @@ func run(c *core.Case) {
 	k := c.Index / len(es)
 	g := &gen{r: c.Rand, over: overrides}
 	doc := k%2 == 1 && !e.noDocs && (e.fresh != nil || e.run != nil)
+	// one value case in sixteen of every type with a TokenReader encodes
+	// several values at once from several goroutines
+	if !doc && k%32 == 30 && e.gen != nil && e.hasReader() {
+		concurrentCase(c, e, g)
+		return
+	}
 	if e.run != nil {
 		e.run(c, e, g, doc)
 		return
@@ -38,6 +47,21 @@ func run(c *core.Case) {
 		return
 	}
 	runValue(c, e, g)
+}
+
+// hasReader reports whether values of the entry implement xmlstream.Marshaler.
+func (e *entry) hasReader() bool {
+	if e.reader == 0 {
+		e.reader = 2
+		g := &gen{r: rand.New(rand.NewSource(1)), over: overrides}
+		func() {
+			defer func() { recover() }()
+			if _, ok := e.gen(g).(xmlstream.Marshaler); ok {
+				e.reader = 1
+			}
+		}()
+	}
+	return e.reader == 1
 }
 
 func perType(tier string) int {
@@ -52,7 +76,7 @@ func Prop() *core.Prop {
 	es := reg()
 	var names []string
 	req := []string{"law_W_checked", "law_A_checked", "law_F_checked", "law_R_checked", "law_S_documents", "canonical_values", "noncanonical_values",
-		"documents_accepted", "documents_rejected", "times_with_second_granular_offset", "enum_out_of_range_values", "slot_headers_with_case_variant_keys", "alias_cases", "law_I_encode_twice", "alias_siblings_compared", "alias_readonly_ops_compared", "setters_after_decode", "setters_after_decode_fieldless_form", "form_setters_after_decode", "form_sets_after_decode", "form_submissions_after_decode", "reused_target_decodes", "reused_target_sequences", "reused_target_accepted", "reused_target_compared_with_fresh", "form_programs", "form_sets", "form_submissions", "form_submitted_values_compared"}
+		"documents_accepted", "documents_rejected", "interleaved_reader_cases", "interleaved_reader_pairs", "concurrent_cases", "concurrent_encodes", "concurrent_cases_with_overlapping_goroutines", "times_with_second_granular_offset", "enum_out_of_range_values", "slot_headers_with_case_variant_keys", "alias_cases", "law_I_encode_twice", "alias_siblings_compared", "alias_readonly_ops_compared", "setters_after_decode", "setters_after_decode_fieldless_form", "form_setters_after_decode", "form_sets_after_decode", "form_submissions_after_decode", "reused_target_decodes", "reused_target_sequences", "reused_target_accepted", "reused_target_compared_with_fresh", "form_programs", "form_sets", "form_submissions", "form_submitted_values_compared"}
 	for _, e := range es {
 		names = append(names, e.name)
 		req = append(req, "values:"+e.name, "encoded:"+e.name)
@@ -68,12 +92,17 @@ func Prop() *core.Prop {
 		if e.fresh != nil {
 			req = append(req, "exercised:"+e.name)
 		}
+		if e.gen != nil && e.hasReader() {
+			req = append(req, "interleaved:"+e.name, "concurrent:"+e.name)
+		}
 	}
 	sort.Strings(names)
 	return &core.Prop{
-		ID:    "C19",
-		Level: core.Exploration,
-		Rule:  "case i takes registry entry i mod N (N payload types) and alternates between a value case and a document case. A value case fills every exported field from typed pools (strings: empty, ASCII, XML-special, multi-line, non-ASCII, 10 KiB, XML-unrepresentable; integers incl. extremes; JIDs incl. XML-special resourceparts; times in any zone with sub-second parts; byte slices; nil/empty/many slices and pointers; URLs; header maps) or, for form.Data, runs a constructor program (New/Cancel, the ten field constructors, Title, Instructions, Result, options, Set, Submit); the value is written with xml.Marshal (MarshalXML or tags), TokenReader and WriteXML, every output parsed strictly, decoded, compared (A), re-encoded and re-decoded (F) and, when canonical, compared with the original (R). A document case mutates one of the type's own encodings structurally and byte-wise, or builds a random tree from its vocabulary, and offers it to the unmarshaller (S); every decode step is repeated on REUSED targets: the document, then a second document derived from a second generated value, into one target, and the two clean encodings A, B, A into one target; a value case decodes the value's encoding into a target that already holds another value (panic = violation; a result that differs from a fresh decode is counted, not reported: no type documents that decoding resets the value). Every successfully decoded value (own encoding, accepted hostile document, reused target, decoded submission) is finally put through the type's public mutator/accessor/builder surface - for form.Data: Set on existing and absent fields with every accepted Go type, all getters, ForFields, Submit, the encoders - which must not panic and must still write well-formed XML. distinct = distinct (type, fields-set mask, canonical?) for values and (type, first mutation, #mutations, accepted?) for documents. Registry: " + joinNames(names),
+		ID:            "C19",
+		Level:         core.Exploration,
+		Race:          true,
+		ReplayRepeats: 10,
+		Rule:          "case i takes registry entry i mod N (N payload types) and alternates between a value case and a document case. A value case fills every exported field from typed pools (strings: empty, ASCII, XML-special, multi-line, non-ASCII, 10 KiB, XML-unrepresentable; integers incl. extremes; JIDs incl. XML-special resourceparts; times in any zone with sub-second parts; byte slices; nil/empty/many slices and pointers; URLs; header maps) or, for form.Data, runs a constructor program (New/Cancel, the ten field constructors, Title, Instructions, Result, options, Set, Submit); the value is written with xml.Marshal (MarshalXML or tags), TokenReader and WriteXML, every output parsed strictly, decoded, compared (A), re-encoded and re-decoded (F) and, when canonical, compared with the original (R). A document case mutates one of the type's own encodings structurally and byte-wise, or builds a random tree from its vocabulary, and offers it to the unmarshaller (S); every decode step is repeated on REUSED targets: the document, then a second document derived from a second generated value, into one target, and the two clean encodings A, B, A into one target; a value case decodes the value's encoding into a target that already holds another value (panic = violation; a result that differs from a fresh decode is counted, not reported: no type documents that decoding resets the value). Every successfully decoded value (own encoding, accepted hostile document, reused target, decoded submission) is finally put through the type's public mutator/accessor/builder surface - for form.Data: Set on existing and absent fields with every accepted Go type, all getters, ForFields, Submit, the encoders - which must not panic and must still write well-formed XML. distinct = distinct (type, fields-set mask, canonical?) for values and (type, first mutation, #mutations, accepted?) for documents. Registry: " + joinNames(names),
 		Assumptions: []string{
 			"encoding/xml's strict decoder is the judge of well-formedness, plus a raw-token check for duplicate attributes",
 			"a value is canonical when its text is representable in XML 1.0, its times fit RFC 3339 with whole-minute offsets, and the per-type rule taken from the type's documentation/XEP holds (see registry.go); only canonical values are subject to law R",
